@@ -157,7 +157,13 @@ fn context(sc: &Scenario) -> DebuggerContext {
 
 /// Drive one run to its end: receive, check that nothing further arrives while the parser waits,
 /// continue. `edit` is called while the parser is stopped at the first breakpoint.
-fn drive(ctx: &mut DebuggerContext, rx: &Receiver<DebuggerEvent>, want: &[DebuggerEvent], mut edit: impl FnMut(&mut DebuggerContext)) {
+fn drive(ctx: &mut DebuggerContext, rx: &Receiver<DebuggerEvent>, want: &[DebuggerEvent], edit: impl FnMut(&mut DebuggerContext)) {
+    drive_with(ctx, rx, want, edit, false)
+}
+
+/// `surplus_cont`: at the last stop of the run `cont` is issued twice (a legal, if pointless, command:
+/// it must neither be refused with anything but EofReached nor leak into a later run).
+fn drive_with(ctx: &mut DebuggerContext, rx: &Receiver<DebuggerEvent>, want: &[DebuggerEvent], mut edit: impl FnMut(&mut DebuggerContext), surplus_cont: bool) {
     let mut got: Vec<DebuggerEvent> = vec![];
     let mut first = true;
     loop {
@@ -177,6 +183,12 @@ fn drive(ctx: &mut DebuggerContext, rx: &Receiver<DebuggerEvent>, want: &[Debugg
                 match ctx.cont() {
                     Ok(()) => {}
                     Err(e) => panic!("PROPERTY: cont() failed while stopped at a breakpoint: {e}"),
+                }
+                if surplus_cont && got.len() + 1 == want.len() {
+                    match ctx.cont() {
+                        Ok(()) | Err(DebuggerError::EofReached) => {}
+                        Err(e) => panic!("PROPERTY: a second cont at the last stop: {e}"),
+                    }
                 }
             }
             other => {
@@ -258,6 +270,15 @@ fn script(name: &str, sc: &Scenario, cap: usize) {
                 Ok(()) | Err(DebuggerError::EofReached) => {}
                 Err(e) => panic!("PROPERTY: cont after the end: {e}"),
             }
+        }
+        // S6: one cont too many at the last stop of the first run, then a second run
+        "S6" => {
+            let (tx, rx) = sync_channel(cap);
+            ctx.run(sc.rule, tx).expect("run");
+            drive_with(&mut ctx, &rx, &want, |_| {}, true);
+            let (tx2, rx2) = sync_channel(cap);
+            restart(&mut ctx, sc, tx2, &[&rx]);
+            drive(&mut ctx, &rx2, &want, |_| {});
         }
         _ => unreachable!(),
     }
@@ -459,8 +480,8 @@ fn main() {
     // work items
     let mut items: Vec<(&str, &Scenario, usize, Option<usize>)> = vec![];
     for sc in SCENARIOS {
-        for s in ["S1", "S2", "S2-delete-all", "S2-delete-all-add", "S2-delete", "S2-add-all", "S2-swap", "S3", "S4", "S5"] {
-            if (s.starts_with("S2") || s == "S3") && sc.breakpoints.is_empty() {
+        for s in ["S1", "S2", "S2-delete-all", "S2-delete-all-add", "S2-delete", "S2-add-all", "S2-swap", "S3", "S4", "S5", "S6"] {
+            if (s.starts_with("S2") || s == "S3" || s == "S6") && sc.breakpoints.is_empty() {
                 continue;
             }
 
@@ -568,7 +589,7 @@ fn main() {
     cov.insert("states".into(), json!(states));
     cov.insert("transitions".into(), json!(states));
     cov.insert("traces_validated_against_impl".into(), json!(states));
-    cov.insert("rule".into(), json!("loom (DPOR, iterated preemption bound) on the real debugger/src/lib.rs rebound to loom primitives by build.rs: scripts S1 (run, receive/continue to the end), S2 (breakpoints edited while stopped), S3 (re-run after the first event), S4 (re-run immediately, precondition enforced exactly), S5 (run to the end, re-run) x 12 grammar/input/breakpoint scenarios (two hits, nested hits, none, failing parse, single hit, hit in a repetition, breakpoints on built-ins / silent rules / implicit WHITESPACE / stack built-ins, multi-byte input) x channel capacity 1 (as the CLI) and 2 (S3/S4). In every execution: delivered events == the reference entries of the parse (S_doc on the optimized rules, every rule entry incl. built-ins; the VM's own listener trace is compared with it sequentially) filtered by the breakpoint set + Eof / the plain VM error text; try_recv between a breakpoint and its cont is empty; every run() returns and all threads terminate (loom reports blocked-forever threads). states = executions (complete interleavings) explored; each is a run of the real code"));
+    cov.insert("rule".into(), json!("loom (DPOR, iterated preemption bound) on the real debugger/src/lib.rs rebound to loom primitives by build.rs: scripts S1 (run, receive/continue to the end), S2 (breakpoints edited while stopped), S3 (re-run after the first event), S4 (re-run immediately, precondition enforced exactly), S5 (run to the end, re-run), S6 (a surplus cont at the last stop, then re-run) x 12 grammar/input/breakpoint scenarios (two hits, nested hits, none, failing parse, single hit, hit in a repetition, breakpoints on built-ins / silent rules / implicit WHITESPACE / stack built-ins, multi-byte input) x channel capacity 1 (as the CLI) and 2 (S3/S4). In every execution: delivered events == the reference entries of the parse (S_doc on the optimized rules, every rule entry incl. built-ins; the VM's own listener trace is compared with it sequentially) filtered by the breakpoint set + Eof / the plain VM error text; try_recv between a breakpoint and its cont is empty; every run() returns and all threads terminate (loom reports blocked-forever threads). states = executions (complete interleavings) explored; each is a run of the real code"));
     let v: Value = json!(bounds.iter().map(|b| b.map(|x| x.to_string()).unwrap_or("unbounded".into())).collect::<Vec<_>>());
     cov.insert("preemption_bounds".into(), v);
     verdict::conclude(verdict::Report {
